@@ -632,7 +632,7 @@ Lemma byte_at_beyond p i : lenN p <= i -> byte_at p i = 0.
 Proof. intros H. unfold byte_at. now rewrite nthN_beyond. Qed.
 
 Definition run_cond (p : bytes) (len e : N) : bool :=
-  let c := byte_at p e in (e <? len) && negb (c =? 92) && negb (c =? 34) && (31 <? c) && negb (c =? 127).
+  let c := byte_at p e in (e <? len) && negb (c =? 92) && negb (c =? 34) && ((31 <? c) || (c =? 9)) && negb (c =? 127).
 Lemma run_end_unfold f p len e :
   qs_run_end (S f) p len e = if run_cond p len e then qs_run_end f p len (e + 1) else e.
 Proof. reflexivity. Qed.
@@ -671,7 +671,7 @@ Proof.
   destruct (byte_at p pos =? 10) eqn:E10.
   { destruct ((len <? pos + 1) || _); [discriminate|]. apply IH. lia. }
   destruct (byte_at p pos =? 92) eqn:E92.
-  { destruct ((byte_at p (pos + 1) =? 0) || (len <? pos + 1)); [discriminate|].
+  { match goal with |- context [if ?b then None else Some (pos + 1)] => destruct b; [discriminate|] end.
     match goal with |- context [qs_run_end ?a ?b ?c ?d] => pose proof (run_end_ge a b c d) as Hge; set (e := qs_run_end a b c d) in * end.
     destruct (_ || (byte_at p e =? 127)); [discriminate|]. apply IH. lia. }
   (* ordinary octet at pos *)
@@ -684,7 +684,7 @@ Proof.
     unfold run_cond in Erc. cbv zeta in Erc. rewrite Elen, E92 in Erc. apply negb_true_iff in E34. rewrite E34 in Erc.
     cbn [negb andb] in Erc.
     assert (Hctl : ((byte_at p pos <=? 31) && negb (byte_at p pos =? 13) && negb (byte_at p pos =? 10)
-                    || (byte_at p pos =? 127)) = true) by lia.
+                    && negb (byte_at p pos =? 9) || (byte_at p pos =? 127)) = true) by lia.
     rewrite Hctl. discriminate.
 Qed.
 
